@@ -38,6 +38,20 @@ M: transcription of libcoap's server-session bookkeeping
                          nothing references it, and NOT before
      src/coap_net.c      coap_send_pdu: `state == NONE` on a server session → -1: nothing is written, `last_rx_tx` stays
 
+   CALL HOME (a server session the application takes over as a client session):
+     src/coap_session.c  coap_session_set_type_client: `if (type == SERVER) { coap_session_reference_lkd(session); type =
+                         CLIENT; return 1; } return 0;` — the session STAYS in `endpoint->sessions` (it keeps
+                         `session->endpoint`); coap_session_release_lkd: `if (ref > 0) --ref; if (ref == 0 && type ==
+                         COAP_SESSION_TYPE_CLIENT) coap_session_free(session);` — no SERVER_SESSION_DEL event;
+                         coap_session_free: coap_session_mfree, `if (session->endpoint) SESSIONS_DELETE(session->endpoint->
+                         sessions, session); else if (session->context) SESSIONS_DELETE(session->context->sessions, session);`
+                         — the table is chosen by where the session LIVES, not by its type —, free.
+                         The type tests of the modelled code: idle accounting of coap_endpoint_get_session and the
+                         reclamation test of coap_io_prepare_io_lkd count `type == SERVER` sessions only; coap_send_lkd
+                         and coap_session_send_ping_lkd refuse a CLIENT session without a socket of its own
+                         (`!coap_netif_available(session)`: a datagram session born on an endpoint has none);
+                         coap_free_endpoint_lkd raises SERVER_SESSION_DEL for and frees every session of the table.
+
 S: `Peer ⇀ session` (partial injective map, `lookup`), `ref s = #holders s`.
 
 SPEC DECISION D9  : `peer_session_functional_injective` is about the `(remote, local port, proto)` key as used for UDP, and
@@ -50,6 +64,11 @@ SPEC DECISION D14 : the application only releases references it holds (`appRelea
 SPEC DECISION D15 : "the oldest idle one when the idle-session limit is reached" is the rule of coap_endpoint_get_session,
                     i.e. of sessions created from datagrams; accepting a stream connection (coap_new_server_session) does
                     no idle accounting and evicts nothing (a stream session is bound to its connection).
+SPEC DECISION D16 : call home is modelled for datagram sessions, and the application ends a call-home session (releases the
+                    reference coap_session_set_type_client() gave it) when nothing else refers to the session (`ref == 1`);
+                    releasing it earlier hands the session's life to whichever library object lets go last (libcoap then
+                    frees the session from inside that object's release, e.g. in the middle of handle_request) — outside
+                    the property's alphabet ("application reference/release calls": the application releases LAST).
 -/
 namespace Coap.Sessions
 
@@ -95,6 +114,7 @@ structure Peer where
 /-- who holds a reference on a session -/
 inductive HKind where
   | app                      -- coap_session_reference() by the application
+  | home                     -- the reference coap_session_set_type_client() takes for the application ("call home")
   | obs (k q tok note : Nat) -- coap_subscription_t on observable resource k: cache key (query variant q; the key also
                              -- covers the session and the Uri-Path), token, and `obs->pdu->mid` named by the index
                              -- (per session, from 1) of the last notification sent for it (0: none sent yet)
@@ -123,11 +143,15 @@ structure Sess where
                              -- on a stream session: every message with a non-empty, non-signalling code written to it
   closed : Bool := false     -- `state == COAP_SESSION_STATE_NONE`: a stream session whose connection is gone
   pend : Nat := 0            -- `session->partial_read`: bytes of an unfinished message received so far
+  client : Bool := false     -- `type == COAP_SESSION_TYPE_CLIENT`: taken over by coap_session_set_type_client() (it still
+                             -- lives in its endpoint's table)
   deriving DecidableEq, Repr
 
 inductive SEvent where
   | new (sid : Nat)          -- COAP_EVENT_SERVER_SESSION_NEW
   | del (sid : Nat)          -- COAP_EVENT_SERVER_SESSION_DEL
+  | handed (sid : Nat)       -- GHOST (libcoap raises no event): a session that was turned into a client session is freed by
+                             -- its last coap_session_release — it leaves the table WITHOUT a SERVER_SESSION_DEL
   deriving DecidableEq, Repr
 
 structure St where
@@ -185,6 +209,7 @@ def Sess.release (s : Sess) : Sess := { s with ref := s.ref - 1 }
 
 def HKind.isAlloc : HKind → Bool
   | .app => false
+  | .home => false
   | _ => true
 
 /-- a new holder object pointing at `sid`: allocate it (unless it is the application), `coap_session_reference_lkd` -/
@@ -273,17 +298,32 @@ def St.reclaim (st : St) (sid : Nat) : St :=
              sessions := st.sessions.filter (fun t => t.sid ≠ sid),
              ledger := (st.dropPartial sid).ledger ++ [.free sid] }
 
+/-- the tail of `coap_session_release_lkd`: `if (session->ref == 0 && session->type == COAP_SESSION_TYPE_CLIENT)
+    coap_session_free(session);` — coap_session_mfree (what hangs off the session), `if (session->endpoint)
+    SESSIONS_DELETE(session->endpoint->sessions, session)`: a session that was born on an endpoint is unlinked from THAT
+    table whatever its type says, then freed.  No event is raised (`SEvent.handed` is M's ghost record of it). -/
+def St.clientFree (st : St) (sid : Nat) : St :=
+  match st.getSess sid with
+  | none => st
+  | some s =>
+    if s.ref ≠ 0 || !s.client then st
+    else { (st.dropPartial sid) with
+             events := st.events ++ [SEvent.handed sid],
+             sessions := st.sessions.filter (fun t => t.sid ≠ sid),
+             ledger := (st.dropPartial sid).ledger ++ [.free sid] }
+
 /-- `coap_make_session` + SESSIONS_ADD + COAP_EVENT_SERVER_SESSION_NEW -/
 def St.newSession (st : St) (p : Peer) : St :=
   { st with
-    sessions := st.sessions ++ [⟨st.next, st.nsess, p, 0, st.now, 0, 0, 0, false, 0⟩],
+    sessions := st.sessions ++ [⟨st.next, st.nsess, p, 0, st.now, 0, 0, 0, false, 0, false⟩],
     ledger := st.ledger ++ [.alloc st.next], events := st.events ++ [.new st.next],
     next := st.next + 1, nsess := st.nsess + 1 }
 
 /-! ## coap_endpoint_get_session -/
 
-/-- the idle test used both by eviction and reclamation: `ref == 0 && delayqueue == NULL` (type is always SERVER here) -/
-def Sess.idle (s : Sess) : Bool := s.ref == 0 && s.delayq == 0
+/-- the idle test used both by eviction and reclamation: `ref == 0 && delayqueue == NULL && type == COAP_SESSION_TYPE_SERVER`
+    (coap_endpoint_get_session counts `type == SERVER` sessions only, coap_io_prepare_io_lkd tests it first) -/
+def Sess.idle (s : Sess) : Bool := s.ref == 0 && (s.delayq == 0 && !s.client)
 
 def Sess.onEp (s : Sess) (lport proto : Nat) : Bool := s.peer.lport == lport && s.peer.proto == proto
 
@@ -458,6 +498,8 @@ inductive Event where
   | appRef (p : Peer)
   | appRelease (p : Peer)
   | disconnect (p : Peer)
+  | callHome (p : Peer)      -- application: coap_session_set_type_client(session) on the peer's session
+  | endCallHome (p : Peer)   -- application: coap_session_release(session) with the reference the call above gave it (D16)
   | connect (p : Peer)       -- a stream peer connects (accept) and sends its CSM
   | partialRx (p : Peer) (c : Nat)  -- a stream peer sends only the first `c` (0 < c < PART_LEN) bytes of a request
   | restRx (p : Peer)        -- … and the rest of it
@@ -547,6 +589,9 @@ def isAsyncPlain : HKind → Bool
   | _ => false
 def isApp : HKind → Bool
   | .app => true
+  | _ => false
+def isHome : HKind → Bool
+  | .home => true
   | _ => false
 
 /-- the part of `handle_request` / the handler that touches session references -/
@@ -672,7 +717,9 @@ def St.step (st : St) (e : Event) : St × Outcome :=
     match st.lookup p with
     | none => (st, .skip)
     | some s =>
-      if s.peer.reliable then (st, .skip)
+      -- coap_send_lkd: `type == COAP_SESSION_TYPE_CLIENT && !coap_netif_available(session)` → "Socket closed", the PDU is
+      -- deleted, COAP_INVALID_MID
+      if s.peer.reliable || s.client then (st, .skip)
       else if s.conActive ≥ NSTART then
         -- coap_send_pdu: `pdu->type == CON && con_active >= NSTART` → coap_session_delay_pdu(session, pdu, NULL):
         -- coap_new_node, LL_APPEND(session->delayqueue, node); nothing is sent, NO reference is taken
@@ -685,7 +732,8 @@ def St.step (st : St) (e : Event) : St × Outcome :=
     match st.lookup p with
     | none => (st, .skip)
     | some s =>
-      if s.conActive ≠ 0 then (st, .skip)
+      -- … `|| (type == COAP_SESSION_TYPE_CLIENT && !coap_netif_available(session))` → COAP_INVALID_MID
+      if s.conActive ≠ 0 || s.client then (st, .skip)
       else
         let st1 := st.updSess s.sid fun t => { t with conActive := t.conActive + 1, last := st.now }
         (st1.addHolder s.sid (.node 0 (st.now + ACK_TIMEOUT_TICKS)), .ok)
@@ -711,6 +759,24 @@ def St.step (st : St) (e : Event) : St × Outcome :=
     match st.lookup p with
     | none => (st, .skip)
     | some s => (st.disconnectSess s, .ok)
+  | .callHome p =>
+    match st.lookup p with
+    | none => (st, .skip)
+    | some s =>
+      -- coap_session_set_type_client: only a SERVER session (return 0 otherwise); D16: datagram sessions
+      if s.client || p.reliable then (st, .skip)
+      else ((st.updSess s.sid fun t => { t with client := true }).addHolder s.sid .home, .ok)
+  | .endCallHome p =>
+    match st.lookup p with
+    | none => (st, .skip)
+    | some s =>
+      match st.findHolder s.sid isHome with
+      | none => (st, .skip)
+      | some h =>
+        -- D16: the application lets go last.  coap_session_release_lkd: `--ref` (the application's token goes), then
+        -- `ref == 0 && type == CLIENT` → coap_session_free: unlinked from its endpoint's table, freed, no event
+        if s.ref ≠ 1 then (st, .skip)
+        else ((st.dropHolder h).clientFree s.sid, .ok)
   | .connect p =>
     if !p.reliable || !((p.lport, p.proto) ∈ st.eps) then (st, .skip) else
     match st.lookup p with
